@@ -20,7 +20,8 @@ FILES = {"add": "src/add.rs", "sub": "src/add.rs", "neg": "src/add.rs", "mul": "
 
 def run(ctx, config="all", ops=None):
     rep = Report("R-VARIANT", "for op in {add, sub, neg, mul, shl, shr, pow} every checked_/saturating_/wrapping_/"
-                 "overflowing_ variant's call-graph closure contains the kernel of that op and no kernel of a different op; "
+                 "wrapping_ variant delegates to the family's overflowing_ root or shares an arithmetic kernel with it (which "
+                 "kernel implements the operation is not prescribed); "
                  "saturating_X mentions exactly the right bound (MAX; ZERO for sub); wrapping_to/saturating_to project the "
                  "wrapped (.1) resp. maximum (.2) payload of FromUintError::Overflow; saturating_from maps ValueTooLarge to "
                  "MAX and ValueNegative/NotANumber to ZERO")
@@ -30,30 +31,45 @@ def run(ctx, config="all", ops=None):
     for op, kern in KERNELS.items():
         if op == "div" or (ops and op not in ops):
             continue
+        fam = {}
         for pre in ("checked_", "saturating_", "wrapping_", "overflowing_", ""):
             name = pre + op
             if pre == "" and op != "pow":
                 continue
             cands = [b for b in prog.fn_bodies() if b["name"] == name and b["file"] == FILES[op]
                      and (prog.impl_of(b) or {}).get("self_s") == U and not (prog.impl_of(b) or {}).get("trait")]
-            if not cands:
-                continue
-            b = cands[0]
+            if cands:
+                fam[pre] = cands[0]
+        # the family's root is the overflowing_ form (value and indicator); every other variant either reaches the
+        # root or shares an arithmetic kernel (a function of src/algorithms) with it.  WHICH kernel implements the
+        # operation is not prescribed: neg may be 0 - x or !x + 1.
+        root = fam.get("overflowing_")
+        root_clo = cg.closure([root["key"]]) if root else set()
+        root_kern = {k for k in root_clo if k in prog.bodies and prog.bodies[k]["file"].startswith("src/algorithms")}
+        for pre, b in fam.items():
+            name = pre + op
             n += 1
             clo = cg.closure([b["key"]])
             key = b["key"].replace("crate::", "")
             where = "%s:%s" % (b["file"], b["line"])
-            has = [k for k in kern if k in clo]
-            wrong = []
-            for other in FOREIGN_TO[op]:
-                wrong += [k for k in KERNELS[other] if k in clo and k not in kern]
-            if not has:
-                rep.violation(key + "|kernel", where, "%s does not reach the %s kernel (%s)" % (name, op, ", ".join(k.split("::")[-1] for k in kern)))
-            elif wrong:
-                rep.violation(key + "|kernel", where, "%s reaches the kernel of a different operation: %s" % (
-                    name, ", ".join(w.replace("crate::", "") for w in wrong)))
+            if root is None:
+                rep.violation(key + "|kernel", where, "the %s family has no overflowing_%s root" % (op, op))
+            elif b is root:
+                rep.ok(key + "|kernel", where, "family root; kernels: %s" % (
+                    ", ".join(sorted(k.split("::")[-1] for k in root_kern)) or "none (computes on limbs itself)"))
+            elif root["key"] in clo:
+                rep.ok(key + "|kernel", where, "delegates to overflowing_%s" % op)
             else:
-                rep.ok(key + "|kernel", where, "reaches %s" % ", ".join(k.split("::")[-1] for k in has))
+                mine = {k for k in clo if k in prog.bodies and prog.bodies[k]["file"].startswith("src/algorithms")}
+                common = mine & root_kern
+                if common:
+                    rep.ok(key + "|kernel", where, "own implementation on the same kernel(s) as overflowing_%s: %s" % (
+                        op, ", ".join(sorted(k.split("::")[-1] for k in common))))
+                else:
+                    rep.violation(key + "|kernel", where, "%s neither delegates to overflowing_%s nor shares a kernel with it "
+                                  "(its kernels: %s; the root's: %s): the variants of one operation compute different things" % (
+                                      name, op, sorted(k.split("::")[-1] for k in mine) or "none",
+                                      sorted(k.split("::")[-1] for k in root_kern) or "none"))
             if pre == "saturating_" and op in SATURATE_TO:
                 v = prog.view(b, (65, 2))
                 consts = set()
